@@ -40,7 +40,7 @@ if ! (cd "$VERIF/harness" && go build $RACE -tags verif -modfile="$B/go.mod" -o 
 fi
 
 NFPM=""
-case "$ID" in C02|C03|C04|C06|C07|C13|C15|C17|C12)
+case "$ID" in C*)
   if ! (cd "$REPO" && go build -tags verif -o "$B/nfpm" ./cmd/nfpm) 2> "$B/build-nfpm.log"; then
     cat "$B/build-nfpm.log" >&2
     echo "INCONCLUSIVE property=$ID nfpm binary does not compile"
